@@ -18,6 +18,7 @@ import inspect
 import json
 import multiprocessing
 import os
+import types
 import pickle
 import sys
 import time
@@ -220,6 +221,10 @@ def run_instance(job):
                 sm = {}
                 for owner, attr, repl in lem.cfg["stubs"]:
                     orig = _static_attr(owner, attr)
+                    if isinstance(owner, types.ModuleType) and isinstance(orig, types.MethodType):
+                        # module attribute that is a bound method (random.randbytes): replaced as a whole
+                        sm[("bound", orig.__func__, id(orig.__self__))] = repl
+                        continue
                     sm[getattr(orig, "__func__", orig)] = getattr(repl, "__func__", repl)
                 I.cfg["stubs_map"] = sm
             I.float_mode = ex.float_mode
